@@ -210,13 +210,38 @@ static std::string oracle(const Case &c) {
     if (!key.empty()) vprc::last().msg = msg;
     return key;
 }
+// histories on a table whose last area ends exactly at 2^32: block writes that run over the top of the address space, mixed with ordinary
+// checked operations; the constrained registers at addresses 0.. keep acceptable values whatever such a request carries
+static void top_area_histories() {
+    for (uint32_t topsize : {2u, 8u, 0x100u}) for (int big = 0; big < 2; big++) {
+        std::string rep = vp::fmt("top %u %d\n", topsize, big);
+        vp::CaseScope scope([&] { return rep; });
+        TopTable T(topsize, false, big);
+        if (register_init(&T.t).code != REG_INIT_SUCCESS) { vp::fail("top-area:init-refused", "table refused", rep); continue; }
+        static const uint16_t LAND[4][4] = {{5, 300, 0x7fff, 0x7fff}, {50, 60, 0, 0}, {0xffff, 0xffff, 0xffff, 0xffff}, {10, 200, 5, 0}};
+        for (uint32_t k : {1u, 2u, 8u}) for (uint32_t j : {1u, 2u, 4u}) for (int v = 0; v < 4; v++) {
+            if (k > topsize) continue;
+            std::vector<uint16_t> w(k + j, 0x2222);
+            for (uint32_t i = 0; i < j; i++) w[k + i] = LAND[v][i];
+            (void)register_set(&T.t, 0, to_value(rm::U16, 10 + (k + j + (uint32_t)v) % 90));   // ordinary traffic in between
+            vp::Block buf((size_t)(k + j) * 2); memcpy(buf.p, w.data(), (size_t)(k + j) * 2);
+            RegisterAccess a = register_block_write(&T.t, (uint32_t)(0u - k), k + j, (RegisterAtom *)buf.p);
+            vp::count(); vp::cls("top-area:wrapping-write-in-history");
+            if (!T.low_invariant()) { vp::fail("bwrite:wrapping-write-breaks-invariant", vp::fmt("after the block write [%u,+%u) (%s) a constrained register at address 0.. holds a value outside its constraint", (uint32_t)(0u - k), k + j, code_name(a.code)), rep); return; }
+            if (a.code == REG_ACCESS_SUCCESS) { vp::fail("bwrite:wrapping-write-accepted", vp::fmt("block write [%u,+%u) runs over the top of the address space and was accepted", (uint32_t)(0u - k), k + j), rep); return; }
+        }
+        vp::nontrivial(vp::fnv(rep));
+    }
+}
 static void run() {
+    if (vp::args().shard == 0) top_area_histories();
     vp::stats().rule = "rc: histories of up to 400 checked operations (typed set incl. bad handles and mistyped values, bit set/clear on all operand kinds, block writes aimed at constraint bounds "
                        "through partial windows, sanitise, out-of-band corruption) on generated tables whose areas all load defaults; model = flat space; after every step storage and touched marks "
                        "equal the model, refused steps change nothing, and (outside a corrupt..sanitise bracket) every min/max/range/callback register satisfies its constraint";
     vprc::check<Case>("constraints are an invariant", genCase(), oracle, [](const Case &c) { return ser_case(c, g_failed_at ? g_failed_at : (size_t)-1); });
 }
 static bool replay(const std::string &text) {
+    if (text.rfind("top ", 0) == 0) { top_area_histories(); return vp::stats().failures.empty(); }
     Case c; std::vector<std::string> rest;
     if (!rm::parse(text, c.t, rest)) return false;
     for (auto &l : rest) {
